@@ -22,8 +22,12 @@ Print Assumptions memattr_predefined_table_ok.
 
 (* ---- all histories ---- *)
 Theorem memattr_all_histories :
-  forall t ops, wf_topo t -> hist_ok (init_state t) ops -> Inv (run (init_state t) ops).
-Proof. intros t ops W H. apply run_Inv; [now apply init_state_Inv|assumption]. Qed.
+  forall t ops, wf_topo t -> hist_ok (init_state t) ops ->
+  Inv (run (init_state t) ops) /\ AllOk (run (init_state t) ops).
+Proof.
+  intros t ops W H. split; [apply run_Inv; [now apply init_state_Inv|assumption]|].
+  apply run_AllOk; [apply init_state_AllOk|assumption].
+Qed.
 Print Assumptions memattr_all_histories.
 
 (* ---- register ---- *)
@@ -85,7 +89,7 @@ Print Assumptions memattr_get_last_set_included.
    cpuset is included in a stored one or disjoint from all of them ([compat]),
    and by the refresh that follows restrict *)
 Theorem memattr_disjointness_preserved :
-  (forall q v is, pd is -> compat is q -> pd (upsert_init q v is)) /\
+  (forall nok q v is, pd is -> compat is q -> pd (upsert_init nok q v is)) /\
   (forall t is, pd is -> pd (filter_map (refresh_imi t) is)).
 Proof. split; [exact upsert_init_pd|exact refresh_imi_pd]. Qed.
 Print Assumptions memattr_disjointness_preserved.
@@ -128,18 +132,18 @@ Proof.
 Qed.
 Print Assumptions memattr_enumerate_targets_exact.
 
-Theorem memattr_enumerate_initiators_partial :
+(* [AllOk]: every cached object pointer is initialised; it holds in all public
+   histories (memattr_all_histories) since fix c37319b *)
+Theorem memattr_enumerate_initiators_exact :
   forall s id a o max inull,
-  get_attr s id = Some a -> need_init a = true -> (max = 0 \/ inull = false) ->
+  AllOk s -> get_attr s id = Some a -> need_init a = true -> (max = 0 \/ inull = false) ->
   snd (get_initiators s id (Some o) 0 max inull) =
   match find_target (tgs_of s id) (o_type o) (o_gp o) (o_os o) with
   | None => Err EINVAL
-  | Some g => if forallb i_ok (firstnN max (g_inits g))
-              then Ok (lenN (g_inits g), map (fun i => (i_loc i, i_val i)) (firstnN max (g_inits g)))
-              else Err EUB
+  | Some g => Ok (lenN (g_inits g), map (fun i => (i_loc i, i_val i)) (firstnN max (g_inits g)))
   end.
-Proof. exact get_initiators_snd. Qed.
-Print Assumptions memattr_enumerate_initiators_partial.
+Proof. exact get_initiators_exact. Qed.
+Print Assumptions memattr_enumerate_initiators_exact.
 
 (* ---- best-of queries ---- *)
 Theorem best_target_optimal :
@@ -160,6 +164,12 @@ Theorem best_initiator_optimal :
      forall i', In i' (g_inits g) -> better (higher a) v (i_val i')).
 Proof. exact best_initiator_optimal_lemma. Qed.
 Print Assumptions best_initiator_optimal.
+
+Theorem best_initiator_defined :
+  forall s id a o, AllOk s -> get_attr s id = Some a -> need_init a = true ->
+  snd (get_best_initiator s id (Some o) 0) <> Err EUB.
+Proof. exact get_best_initiator_defined. Qed.
+Print Assumptions best_initiator_defined.
 
 (* ---- Capacity and Locality ---- *)
 Theorem capacity_locality_derived_readonly :
@@ -283,8 +293,8 @@ Definition ex_ops : list op :=
 Example ex_hist_ok : hist_ok (init_state ex_topo) ex_ops.
 Proof. vm_compute. intuition. Qed.
 
-Example ex_inv : Inv (run (init_state ex_topo) ex_ops).
-Proof. apply memattr_all_histories; [exact ex_wf|exact ex_hist_ok]. Qed.
+Example ex_inv : Inv (run (init_state ex_topo) ex_ops) /\ AllOk (run (init_state ex_topo) ex_ops).
+Proof. apply (memattr_all_histories ex_topo ex_ops); [exact ex_wf|exact ex_hist_ok]. Qed.
 
 (* the history really stores, reads back, finds ties and keeps two attributes apart *)
 Example ex_results :
@@ -336,7 +346,7 @@ Theorem memattr_get_last_set_overlap_refuted :
 Proof.
   exists (run (init_state ex_topo) [ORegister (nm [102]) 5; OSet 8 (Some ex_numa0) (Some (LCpu (Some (bs_of_N 1)))) 0 1]).
   exists c01, (bs_of_N 1), 2. split.
-  - apply memattr_all_histories; [exact ex_wf|]. vm_compute. intuition.
+  - apply (memattr_all_histories ex_topo); [exact ex_wf|]. vm_compute. intuition.
   - split; [|split; [reflexivity|split; [reflexivity|vm_compute; discriminate]]].
     split; [cbn; tauto|]. split; [split; reflexivity|]. eexists. split; [vm_compute; reflexivity|]. split; reflexivity.
 Qed.
@@ -357,31 +367,25 @@ Proof.
 Qed.
 Print Assumptions memattr_outside_root_refuted.
 
-(* enumeration of object initiators: the cached pointer of an initiator appended
-   to an already refreshed target is indeterminate (hwloc_memattr_set_value /
-   to_internal_location never initialise it) *)
-Theorem memattr_enumerate_initiators_refuted :
-  exists ops, hist_ok (init_state ex_topo) ops /\
-    snd (get_initiators (run (init_state ex_topo) ops) 8 (Some ex_numa0) 0 4 false) = Err EUB /\
-    snd (get_best_initiator (run (init_state ex_topo) ops) 8 (Some ex_numa0) 0) = Err EUB.
-Proof.
-  exists [ORegister (nm [102]) 5; OSet 8 (Some ex_numa0) (Some (LObj ex_pu0)) 0 10;
-          OGet 8 (Some ex_numa0) (Some (LObj ex_pu0)) 0; OSet 8 (Some ex_numa0) (Some (LObj ex_pu1)) 0 20].
-  split; [vm_compute; intuition|]. vm_compute. split; reflexivity.
-Qed.
-Print Assumptions memattr_enumerate_initiators_refuted.
+(* regressions of two fixed defects (known_findings.txt "fixed:" lines): an
+   object initiator appended to an already refreshed target is enumerated, and
+   dup after a refresh dropped every target of an attribute is an ordinary dup *)
+Example ex_regress_object_initiator :
+  let s := run (init_state ex_topo)
+     [ORegister (nm [102]) 5; OSet 8 (Some ex_numa0) (Some (LObj ex_pu0)) 0 10;
+      OGet 8 (Some ex_numa0) (Some (LObj ex_pu0)) 0; OSet 8 (Some ex_numa0) (Some (LObj ex_pu1)) 0 20] in
+  snd (get_initiators s 8 (Some ex_numa0) 0 4 false) = Ok (2, [(IObj HWLOC_OBJ_PU 6, 10); (IObj HWLOC_OBJ_PU 7, 20)]) /\
+  snd (get_best_initiator s 8 (Some ex_numa0) 0) = Ok (IObj HWLOC_OBJ_PU 7, 20).
+Proof. vm_compute. split; reflexivity. Qed.
 
-(* dup after a refresh dropped every target of an attribute shares (and later
-   double-frees) the targets array *)
-Theorem memattr_dup_shared_refuted :
-  exists ops, hist_ok (init_state ex_topo) ops /\ dup_shares (run (init_state ex_topo) ops) = true.
+Example ex_regress_dup_after_all_targets_dropped :
+  let ops := [OSet 2 (Some ex_numa1) (Some (LCpu (Some (bs_of_N 8)))) 0 10; ORetopo ex_topo2;
+              OGet 2 (Some ex_numa0) (Some (LCpu (Some (bs_of_N 1)))) 0; ODup] in
+  hist_ok (init_state ex_topo) ops /\ tgs_of (run (init_state ex_topo) ops) 2 = [].
 Proof.
-  exists [OSet 2 (Some ex_numa1) (Some (LCpu (Some (bs_of_N 8)))) 0 10; ORetopo ex_topo2;
-          OGet 2 (Some ex_numa0) (Some (LCpu (Some (bs_of_N 1)))) 0].
-  split; [|vm_compute; reflexivity].
-  cbn [hist_ok]. split; [vm_compute; intuition|]. split; [exact ex_shrinks|]. split; [exact Logic.I|exact Logic.I].
+  cbn zeta. split; [|vm_compute; reflexivity].
+  cbn [hist_ok]. split; [vm_compute; intuition|]. split; [exact ex_shrinks|]. repeat split.
 Qed.
-Print Assumptions memattr_dup_shared_refuted.
 
 (* targets other than NUMA nodes whose os_index is not unique within their type
    (hypothesis wf_os_unique of [wf_topo] violated: two cores numbered 0 in two
@@ -400,3 +404,30 @@ Theorem memattr_target_os_index_refuted :
     snd (get_value (fst (set_value s 8 (Some ex_core_a) None 0 10)) 8 (Some ex_core_b) None 0) = Ok 10.
 Proof. exists [ORegister (nm [102]) 1]. vm_compute. repeat split. discriminate. Qed.
 Print Assumptions memattr_target_os_index_refuted.
+
+(* hwloc_topology_get_default_nodeset, second loop: "already taken?" tests bit i
+   (the position in the os_index-sorted array) instead of nodes[i]->os_index.
+   Two nodes with os_index 1 and 2 (node 0 restricted away), the second of
+   another subtype: the code returns {1}, the documented algorithm {1,2}; PU 2
+   loses its only local node.  Replayed on the C code:
+   corpus/c14/08-default-nodeset-os-index.case. *)
+Definition ex_topo_dn := Topo (bs_of_N 6)
+  [Obj HWLOC_OBJ_MACHINE 1 0 true (bs_of_N 6) 0 0;
+   Obj HWLOC_OBJ_PU 5 1 true (bs_of_N 2) 0 0; Obj HWLOC_OBJ_PU 8 2 true (bs_of_N 4) 0 0;
+   Obj HWLOC_OBJ_NUMANODE 7 1 true (bs_of_N 2) 1024 0; Obj HWLOC_OBJ_NUMANODE 10 2 true (bs_of_N 4) 1024 1].
+Theorem default_nodeset_array_index_refuted :
+  exists s, default_nodeset s 0 = Ok (bs_of_N 2) /\ default_nodeset_doc s 0 = Ok (bs_of_N 6).
+Proof. exists (init_state ex_topo_dn). vm_compute. split; reflexivity. Qed.
+Print Assumptions default_nodeset_array_index_refuted.
+
+(* ... and they agree whenever NUMA os_indexes are 0,1,2,... *)
+Theorem default_nodeset_array_index_partial :
+  forall s flags,
+  (forall e, In e (number_from 0 (sort_by_os (numa_nodes (m_topo s)))) -> fst e = o_os (snd e)) ->
+  default_nodeset s flags = default_nodeset_doc s flags.
+Proof. exact default_nodeset_index_ok. Qed.
+Print Assumptions default_nodeset_array_index_partial.
+
+Example ex_default_nodeset_partial_hyp :
+  forall e, In e (number_from 0 (sort_by_os (numa_nodes ex_topo))) -> fst e = o_os (snd e).
+Proof. intros e H. vm_compute in H. intuition (subst; reflexivity). Qed.
